@@ -90,6 +90,10 @@ def run(chk):
     if index is not None:
         for e in index["compile_errors"]:
             chk.violation("emitted C does not compile", e)
+        for h in index.get("hangs", []):
+            chk.violation(f"code emitted by the {'C' if h['backend'] == 'c' else 'LLVM'} back end "
+                          + ("does not terminate (40 s)" if h["how"] == "timeout" else "crashes")
+                          + " on an IR tree whose loops are bounded by a counter (the other executions of the stream return at once)", h)
         res = chk.coq_run_files([str(d / (s["name"] + ".v")) for s in index["shards"]], workers=6)
         for sh in index["shards"]:
             okr, outr = res[str(d / (sh["name"] + ".v"))]
